@@ -842,32 +842,84 @@ def ctx_flags(ctx):
             'min_tls12': ctx.minimum_version >= ssl.TLSVersion.TLSv1_2}
 
 
+def tls_handshake(server_ctx, client_ctx):
+    """one TLS handshake over a socketpair (no network): 'accepted' iff the client gets application data through"""
+    import socket
+    a, b = socket.socketpair()
+    a.settimeout(5)
+    b.settimeout(5)
+    res = {}
+
+    def serve():
+        try:
+            with server_ctx.wrap_socket(a, server_side=True) as s_:
+                s_.recv(1)
+                s_.sendall(b'k')
+            res['server'] = 'ok'
+        except Exception as ex:  # noqa: BLE001
+            res['server'] = exc_name(ex)
+        finally:
+            a.close()
+
+    th = threading.Thread(target=serve, daemon=True)
+    th.start()
+    try:
+        with client_ctx.wrap_socket(b, server_side=False) as c_:
+            c_.sendall(b'x')
+            got = c_.recv(1)          # TLS 1.3: a refused client certificate shows up on the first read
+        out = 'accepted' if got == b'k' else 'rejected'
+    except Exception:  # noqa: BLE001
+        out = 'rejected'
+    finally:
+        b.close()
+    th.join(6)
+    return out
+
+
 def run_ctxflags(req):
+    """certloader on REAL key material in a temp folder: CA file not named / named + present / named + missing,
+    password right / wrong / not needed (unencrypted key), cyphers none / file present / file missing"""
+    import shutil
+    import subprocess
     import tempfile
     res = []
     with tempfile.TemporaryDirectory() as td:
-        cy = Path(td) / 'cyphers.txt'
-        cy.write_text('# comment\n\nHIGH:!aNULL\n')
+        td = Path(td)
+        shutil.copy(CERTS / 'test_private_key.pem', td / 'userkey.pem')
+        shutil.copy(CERTS / 'test_certificate.pem', td / 'usercert.pem')
+        shutil.copy(CERTS / 'test_certificate.pem', td / 'cacert.pem')       # self-signed: its own CA
+        subprocess.run(['openssl', 'rsa', '-in', str(td / 'userkey.pem'), '-passin', 'pass:password',
+                        '-out', str(td / 'plainkey.pem')], check=True, capture_output=True, timeout=30)
+        (td / 'cyphers.txt').write_text('# comment\n\nHIGH:!aNULL\n')
+        anon = ssl.SSLContext(ssl.PROTOCOL_TLS_CLIENT)       # a TLS client without any certificate
+        anon.check_hostname = False
+        anon.verify_mode = ssl.CERT_NONE
         for case in req['cases']:
             try:
                 if case['loader'] == 'defaults':
                     res.append({'status': 'ok', 'client': ctx_flags(ssl.SSLContext(ssl.PROTOCOL_TLS_CLIENT)),
                                 'server': ctx_flags(ssl.SSLContext(ssl.PROTOCOL_TLS_SERVER)), 'distinct': True})
                     continue
-                ca_name = {'none': None, 'given': 'test_certificate.pem', 'missing': 'no_such_ca.pem'}[case['ca']]
+                ca_name = {'none': None, 'given': 'cacert.pem', 'missing': 'no_such_ca.pem'}[case['ca']]
+                key, pw = {'right': ('userkey.pem', 'password'), 'wrong': ('userkey.pem', 'not-the-password'),
+                           'absent': ('plainkey.pem', None)}[case['passwd']]
+                cy_name = {'none': None, 'given': 'cyphers.txt', 'missing': 'no_such_cyphers.txt'}[case['cyphers']]
                 if case['loader'] == 'folder':
                     c = certloader.mk_ssl_contexts_from_folder(
-                        CERTS, private_key='test_private_key.pem', certificate='test_certificate.pem',
-                        ca_public_key=ca_name, cyphers_file=str(cy) if case['cyphers'] else None,
-                        ssl_passwd='password')
+                        td, private_key=key, certificate='usercert.pem', ca_public_key=ca_name,
+                        cyphers_file=cy_name, ssl_passwd=pw)
                 else:
                     c = certloader.mk_ssl_contexts(
-                        CERTS / 'test_private_key.pem', CERTS / 'test_certificate.pem',
-                        (CERTS / ca_name) if ca_name else None, 'HIGH:!aNULL' if case['cyphers'] else None, 'password')
-                res.append({'status': 'ok', 'client': ctx_flags(c.client_context), 'server': ctx_flags(c.server_context),
-                            'distinct': c.client_context is not c.server_context})
+                        td / key, td / 'usercert.pem', (td / ca_name) if ca_name else None,
+                        'HIGH:!aNULL' if cy_name else None, pw)
+                r = {'status': 'ok', 'client': ctx_flags(c.client_context), 'server': ctx_flags(c.server_context),
+                     'distinct': c.client_context is not c.server_context}
+                r['anonymous_client'] = tls_handshake(c.server_context, anon)
+                if case['ca'] == 'given':       # positive control: the pair itself can talk (self-signed cert = CA)
+                    r['own_client'] = tls_handshake(c.server_context, c.client_context)
+                res.append(r)
             except Exception as ex:  # noqa: BLE001
-                res.append({'status': exc_name(ex)})
+                res.append({'status': exc_name(ex), 'msg': str(ex)[:120]})
     return {'results': res}
 
 
